@@ -175,7 +175,7 @@ class C13(core.Prop):
     FUNCTIONS = ['strip_bonding_descriptors', 'collect_ring_number', '__next__', 'peek',
                  '_parse_dialect_string', 'check_and_cast_types']
     STUBS = ['inspect.Signature.bind: native']
-    ASSUMPTIONS = ['descriptor labels are 0-2 characters over [0-9A-Za-z]; kinds $ < > !',
+    ASSUMPTIONS = ['descriptor labels are 0-2 characters (4 on the first four skeletons) over [0-9A-Za-z]; kinds $ < > !',
                    'a descriptor is inserted directly after an atom, after that atom\'s ring digits, after a closed branch of that atom, or leads the text; '
                    'a non-leading descriptor carries its order symbol in front, a leading one behind (docs: fragments.rst, Valency)',
                    'numeric annotation values have the spelling d.d; free values are 2 alnum characters']
@@ -203,6 +203,8 @@ class C13(core.Prop):
                     for lab in ((0, 1) if tier == 'quick' else (0, 1, 2)):
                         for osym in ('n', 's'):
                             out.append({'skel': sk, 'ins': [[list(p), [[lab, osym]] * nd]], 'ann': {}})
+                if sk in skels[:4]:
+                    out.append({'skel': sk, 'ins': [[list(p), [[4, 's']]]], 'ann': {}})       # a long label
                 if maxd >= 2:
                     out.append({'skel': sk, 'ins': [[list(p), [[1, 's'], [0, 'n']]]], 'ann': {}})
                     out.append({'skel': sk, 'ins': [[list(p), [[0, 'n'], [1, 's']]]], 'ann': {}})
